@@ -455,7 +455,7 @@ def check_property(pid, tier, seed):
     return exit_code
 
 
-GATE_DEFAULT = "off"  # TODO(lead): "strict" once the engine worker has finished (advisory = run but do not block)
+GATE_DEFAULT = "strict"  # the engine must pass its own self-test suites (cached per content hash) before any property is checked
 
 
 def engine_gate(force=False):
